@@ -575,7 +575,16 @@ def shell_safe(case, out):
     return "`" not in text and "$(" not in text
 
 
+def _mute():
+    """eups writes its chatter to stream objects created at import time; silence them in the worker."""
+    U = common.eups_mod("utils")
+    null = open(os.devnull, "w")
+    for n in ("stderr", "stdinfo", "stdwarn", "stdok"):
+        setattr(U, n, null)
+
+
 def run_chunk(cases):
+    _mute()
     res = [impl_case(c) for c in cases]
     if _E is not None:
         common.rmtree(_E._c05root)
